@@ -32,6 +32,9 @@ func genC07(t *rapid.T) CaseC07 {
 	case r == 1:
 		c.Src = "boost-wide"
 		c.Map, c.Steps = boostWide(t)
+	case r == 2:
+		c.Src = "boost-list-in-list"
+		c.Map, c.Steps, _ = boostLIL(t)
 	default:
 		indexed := rapid.Bool().Draw(t, "indexed")
 		lil := !indexed && rapid.IntRange(0, 3).Draw(t, "lil") == 0
